@@ -153,7 +153,6 @@ func (vc *vectorIndexCache) createAndCacheLOCKED(fieldID uint16, mem []byte,
 		docIDUint32 := uint32(docID)
 		if isExceptNotEmpty && except.Contains(docIDUint32) {
 			vecIDsToExclude = append(vecIDsToExclude, vecID)
-			continue
 		}
 		vecDocIDMap[vecID] = docIDUint32
 		if loadDocVecIDMap {
